@@ -246,15 +246,10 @@ void gen_perm(mzp_t *P, const char *gen, uint64_t seed, rci_t bound) {
 }
 
 int strassen_guard_ok(long m, long k, long n, long cutoff) {
-  /* Pinned tree: the Strassen split produces empty quadrants when the effective cutoff is 64 and the
-   * smallest dimension lies in [86,128) (defect of an unclaimed property, C01).  Keep it out. */
-  long c = cutoff;
-  if (c == 0) return 1; /* default cutoff is large */
-  c = c / 64 * 64;
-  if (c < 64) c = 64;
-  long mn = m < k ? m : k;
-  if (n < mn) mn = n;
-  if (3 * m >= 4 * c && 3 * k >= 4 * c && 3 * n >= 4 * c && mn < 128) return 0;
+  /* Was a domain guard on the pinned tree: with an effective cutoff of 64 the Strassen split produced empty quadrants when the
+   * smallest dimension lay in [86,128).  The defect turned out to be reachable from claimed C11 (valid TRSM/solve calls crash),
+   * was repaired in /repo (fix commit 8eaec0d), and the guard is gone: every cutoff is generated for every shape. */
+  (void)m; (void)k; (void)n; (void)cutoff;
   return 1;
 }
 
